@@ -256,6 +256,7 @@ func main() {
 		fmt.Println("SHIM MISMATCH: select model")
 	}
 	bad += hbSelfTest()
+	bad += timerSelfTest()
 	if bad > 0 {
 		os.Exit(1)
 	}
